@@ -39,6 +39,8 @@ def run(ctx):
     ctx.report.rules[-1].id = "R05.8(R04.1)"
     c04.r04_3(ctx, rep, roles)
     ctx.report.rules[-1].id = "R05.9(R04.3)"
+    from .. import wrappers
+    wrappers.heartbeat_inc(ctx, rep, roles, "C05", "R05.10")
 
 
 PUB_CHITCHAT_MUT = {"self_node_state": "own copy only", "catchup": "documented catch-up entry (C18)"}
